@@ -126,6 +126,47 @@ def gzipW (b : Beh) : Beh :=
   | .panic => ⟨ops, .panic⟩
   | .ret s e => if s ≥ 400 then ⟨ops ++ errResponse s, .ret 0 e⟩ else ⟨ops, .ret s e⟩
 
+/-- `gzip` when its response filters DECLINE the response (responsefilter.go: ResponseFilterWriter
+with shouldCompress = false — `min_length` not met, the response already carries a
+Content-Encoding, status 204): the header goes to the underlying writer once (statusCodeWritten),
+an explicit 200 before a first Write or Flush, everything uncoded, Content-Length untouched; a
+Flush goes straight to the underlying writer.  The fallback for an unhandled error status is the
+same as when compressing. -/
+def gzipPlainW (b : Beh) : Beh :=
+  let ops := norm b.ops
+  match b.out with
+  | .panic => ⟨ops, .panic⟩
+  | .ret s e => if s ≥ 400 then ⟨ops ++ errResponse s, .ret 0 e⟩ else ⟨ops, .ret s e⟩
+
+/-- the header as ResponseFilterWriter.WriteHeader sees it when the decision is taken — at the
+first WriteHeader that is not informational, or the first Write / Flush: the status code and the
+Content-Length in the header map -/
+def firstCommit : Option Chunk → List WOp → Option (Nat × Option Chunk)
+  | _, [] => none
+  | _, .setCL v :: r => firstCommit v r
+  | l, .info :: r => firstCommit l r
+  | l, .hdr c :: _ => some (c, l)
+  | l, .write _ _ :: _ => some (200, l)
+
+/-- the response filters of a config (setup.go: SkipCompressedFilter always, LengthFilter when
+`min_length` is given) and the 204 rule: `true` = compress.  `ce`: the response carries a
+Content-Encoding other than identity; `len c`: the number a Content-Length set from chunk `c`
+parses to.  No Content-Length, or 0, never meets a `min_length`. -/
+def respFilters (minLen : Option Nat) (ce : Bool) (len : Chunk → Nat) (ops : List WOp) : Bool :=
+  match firstCommit none ops with
+  | none => true   -- nothing committed below: both writers pass on the same calls
+  | some (code, l) =>
+    code != 204 && !ce &&
+      (match minLen with
+       | none => true
+       | some m => match l with
+         | none => false
+         | some c => len c != 0 && decide (m ≤ len c))
+
+/-- `gzip` with response filters: they decide (`dec` on the calls made below) between the
+compressing and the plain writer -/
+def gzipFW (dec : List WOp → Bool) (b : Beh) : Beh := if dec b.ops then gzipW b else gzipPlainW b
+
 inductive ErrMode where
   | plain      -- `errors` without pages
   | page404    -- a custom page for 404 only
@@ -251,6 +292,20 @@ def chain (c : Cfg) (r : Req) (n : Nat) (i : Inner) : Beh :=
 
 def serve (c : Cfg) (r : Req) (n : Nat) (i : Inner) : Resp := runOps (serverW (chain c r n i))
 
+/-- the chain with gzip's response filters: `dec` is their verdict on the calls that reach gzip
+(`chain` is the instance where they always say "compress") -/
+def chainF (dec : List WOp → Bool) (c : Cfg) (r : Req) (n : Nat) (i : Inner) : Beh :=
+  let b1 := pre n (if c.templates then templatesW r.html i else i.beh)
+  let b2 := match effectiveErrors c with
+    | some m => errorsW m b1
+    | none => b1
+  let b3 := if c.header then headerW b2 else b2
+  let b4 := if c.gzip && r.html && r.ae then gzipFW dec b3 else b3
+  if c.log then logW b4 else b4
+
+def serveF (dec : List WOp → Bool) (c : Cfg) (r : Req) (n : Nat) (i : Inner) : Resp :=
+  runOps (serverW (chainF dec c r n i))
+
 /-! ### what net/http puts on the wire (trusted, as documented)
 
 No body for a HEAD request and for the statuses 204 and 304 — whatever the handlers wrote is
@@ -267,6 +322,9 @@ def wire (head : Bool) (r : Resp) : Resp :=
   else r
 
 def serveWire (c : Cfg) (r : Req) (n : Nat) (i : Inner) : Resp := wire r.head (serve c r n i)
+
+def serveWireF (dec : List WOp → Bool) (c : Cfg) (r : Req) (n : Nat) (i : Inner) : Resp :=
+  wire r.head (serveF dec c r n i)
 
 /-! ### what outlives a request
 
@@ -437,6 +495,7 @@ one (`Req.html` says whether the request passes it) -/
 structure GzipLine where
   notPaths : List String
   level    : Option Nat
+  minLen   : Option Nat := none   -- `min_length`: a LengthFilter among the response filters
 deriving Repr, DecidableEq
 
 /-- Gzip.ServeHTTP: the first config all of whose request filters let the request through -/
@@ -547,6 +606,34 @@ def siteChain (s : Site) (path : String) (r : Req) (n : Nat) (i : Inner) : Beh :
 
 def siteServe (s : Site) (path : String) (r : Req) (n : Nat) (i : Inner) : Resp :=
   runOps (serverW (siteChain s path r n i))
+
+/-- what gzip's response filters read off the response header: see `respFilters` -/
+structure RespFacts where
+  len : Chunk → Nat
+  ce  : Bool
+
+/-- the response filters of the config found -/
+def siteDec (f : RespFacts) (cfg : Option GzipLine) : List WOp → Bool :=
+  respFilters (cfg.bind (·.minLen)) f.ce f.len
+
+/-- Gzip.ServeHTTP for the config found, with that config's response filters -/
+def gzipConfigWF (f : RespFacts) (cfg : Option GzipLine) (b : Beh) : Beh :=
+  match cfg with
+  | some _ => gzipFW (siteDec f cfg) b
+  | none => b
+
+def siteChainF (f : RespFacts) (s : Site) (path : String) (r : Req) (n : Nat) (i : Inner) : Beh :=
+  let b1 := pre n (tplRuleW (tplRuleFor s.templates path) r.html i)
+  let b2 := errorsOptW s.errMode b1
+  let b3 := if s.header.isEmpty then b2 else headerW b2
+  let b4 := if r.ae then gzipConfigWF f (gzipConfigFor s.gzip path r.html) b3 else b3
+  logRuleW (logRuleFor (logSetup s.log) path) b4
+
+def siteServeF (f : RespFacts) (s : Site) (path : String) (r : Req) (n : Nat) (i : Inner) : Resp :=
+  runOps (serverW (siteChainF f s path r n i))
+
+def siteServeWireF (f : RespFacts) (s : Site) (path : String) (r : Req) (n : Nat) (i : Inner) : Resp :=
+  wire r.head (siteServeF f s path r n i)
 
 def siteServeWire (s : Site) (path : String) (r : Req) (n : Nat) (i : Inner) : Resp :=
   wire r.head (siteServe s path r n i)
